@@ -1035,7 +1035,7 @@ func drawCop(s *simrt.Sim, u int, deleteAll, clear bool) cop {
 	case cApply:
 		o.l, o.l2 = drawList(s, u, 2), drawList(s, u, 2)
 	case cCompute:
-		o.variant = s.Choose(2)
+		o.variant = s.Weighted(4, 4, 1) // 2: the factory panics and the caller recovers
 		o.l, o.l2 = drawList(s, u, 2), drawList(s, u, 2)
 		o.yields = s.Choose(3)
 	case cIter:
@@ -1130,6 +1130,22 @@ func (h *setHist) run(c int, set ds.Set[E], o cop, u int) {
 			seenRes[e] = true
 		}
 	case cApply, cCompute:
+		if o.kind == cCompute && o.variant == 2 {
+			// a mutation factory that gives up with a panic which its caller recovers: the call changes nothing, and the set
+			// stays usable for everybody (whatever Compute holds while the factory runs is released on the way out)
+			call := h.tick()
+			panicked, _ := hx.Try(func() {
+				set.Compute(func(r ds.ReadableSet[E]) ds.SetMutations[E] {
+					for i := 0; i < o.yields; i++ {
+						simrt.Yield()
+					}
+					panic("the mutation factory gives up")
+				})
+			})
+			s.Probe("compute-factory-panicked")
+			h.line(c, call, h.tick(), "Compute(factory panics) -> recovered=%v", panicked)
+			return
+		}
 		var m *stampMut
 		var snap []E
 		add, del := o.l, o.l2
